@@ -105,11 +105,12 @@ Section Reject.
   (** ** a loaded file is sealed *)
 
   Lemma loop_checked fuel consumed st inp r : loop fuel consumed st true inp = Ok r -> inp = [].
-  Proof. destruct fuel; cbn [loader_loop]; [discriminate|]. destruct inp; [reflexivity|discriminate]. Qed.
+  Proof using Type. destruct fuel; cbn [loader_loop]; [discriminate|]. destruct inp; [reflexivity|discriminate]. Qed.
 
   Lemma loop_sealed : forall fuel consumed st inp r, bytes inp ->
     loop fuel consumed st false inp = Ok r -> sealed (consumed ++ inp).
-  Proof.
+  Proof using record_regular.
+    clear record_strict header_strict header_regular.
     induction fuel as [|fuel IH]; intros consumed st inp r Hb H; cbn [loader_loop] in H; [discriminate|].
     destruct inp as [|c t]; [discriminate|].
     inversion Hb as [|? ? Hc Ht]; subst.
@@ -140,7 +141,7 @@ Section Reject.
   Qed.
 
   Theorem accept_sealed b st : bytes b -> load b = Ok st -> sealed b.
-  Proof.
+  Proof using header_regular record_regular.
     intros Hb H. unfold loader in H.
     destruct (header b) as [[st0 rest]| |] eqn:EH; try discriminate.
     destruct (header_regular _ _ _ EH) as (h & -> & _).
@@ -155,7 +156,7 @@ Section Reject.
 
   Lemma loop_truncated : forall fuel consumed st inp r, loop fuel consumed st false inp = Ok r ->
     forall p q, inp = p ++ q -> q <> [] -> forall fuel' consumed', rejected (loop fuel' consumed' st false p).
-  Proof.
+  Proof using record_regular record_strict.
     induction fuel as [|fuel IH]; intros consumed st inp r H p q E Hq fuel' consumed' x; cbn [loader_loop] in H; [discriminate|].
     destruct fuel' as [|fuel']; cbn [loader_loop]; [discriminate|].
     destruct inp as [|c t]; [discriminate|].
@@ -190,7 +191,7 @@ Section Reject.
   Qed.
 
   Theorem truncation_rejected b st p q : load b = Ok st -> b = p ++ q -> q <> [] -> rejected (load p).
-  Proof.
+  Proof using header_regular header_strict record_regular record_strict.
     intros H E Hq x. unfold loader in *.
     destruct (header b) as [[st0 rest]| |] eqn:EH; try discriminate.
     destruct (header_regular _ _ _ EH) as (h & -> & Hh).
@@ -207,14 +208,14 @@ Section Reject.
 
   Theorem alteration_rejected b st b' i : bytes b -> bytes b' -> load b = Ok st ->
     agree_outside i 4 b b' -> b <> b' -> rejected (load b').
-  Proof.
+  Proof using header_regular record_regular.
     intros Hb Hb' H Hw Hne x K.
     apply Hne. apply (sealed_window32 i b b' Hb Hb'); [exact (accept_sealed b st Hb H)|exact (accept_sealed b' x Hb' K)|exact Hw].
   Qed.
 
   Corollary single_bit_rejected pre c j post st : bytes (pre ++ [c] ++ post) -> j < 8 ->
     load (pre ++ [c] ++ post) = Ok st -> rejected (load (pre ++ [N.lxor c (2^j)] ++ post)).
-  Proof.
+  Proof using header_regular record_regular.
     intros Hb Hj H x K.
     assert (Hc : c < 256).
     { apply bytes_app in Hb. destruct Hb as [_ Hb2]. apply bytes_app in Hb2. destruct Hb2 as [Hb2 _]. inversion Hb2; assumption. }
